@@ -1,5 +1,6 @@
 import PycModel.Parser.Stmt
 import PycModel.Properties.Tables
+import PycModel.Properties.TablesGen
 import PycModel.Properties.C17
 /-!
 # C08 — regenerated C means the same as the original to a C compiler
